@@ -252,10 +252,12 @@ func runHistory(limit, prefill int, seq []lookup, prefix []int, objs []obj) hres
 	vtime.Reset()
 	vmap.X = &vmap.Explorer{Prefix: prefix, Active: true}
 	defer func() { vmap.X = &vmap.Explorer{} }()
-	for i := 0; i < prefill/2; i++ { // each filler render looks up two names
-		if v := filler(i); v != "" {
-			r.viol = v
-			return r
+	for h := 0; h < fillerHeat; h++ { // heat: how often every filler pair is looked up
+		for i := 0; i < prefill/2; i++ { // each filler render looks up two names
+			if v := filler(i); v != "" {
+				r.viol = v
+				return r
+			}
 		}
 	}
 	for i, l := range seq {
@@ -417,6 +419,40 @@ func run(t *vlib.T) {
 		}
 	}
 
+	// (2b) the same with a HOT pre-fill: every pre-fill pair was looked up three / five times
+	for _, heat := range []int{3, 5} {
+		for _, limit := range limits[:1] {
+			for _, pf := range []int{limit, limit + 4} {
+				if !exportAvailable {
+					continue
+				}
+				heat, limit, pf := heat, limit, pf
+				for _, a := range alphaSmall {
+					for _, b := range alphaSmall {
+						sq := []lookup{a, b, a}
+						t.Case(fmt.Sprintf("hot%d/limit%d/prefill%d/%v", heat, limit, pf, sq), func() *vlib.Outcome {
+							fillerHeat = heat
+							defer func() { fillerHeat = 1 }()
+							return exploreHistory(limit, pf, sq, dev, objs)
+						})
+					}
+				}
+			}
+		}
+	}
+	// the real limit with a hot pre-fill (black box)
+	for _, pf := range []int{1000, 1100} {
+		pf := pf
+		for _, a := range alphaSmall {
+			sq := []lookup{a, a}
+			t.Case(fmt.Sprintf("realhot/prefill%d/%v", pf, sq), func() *vlib.Outcome {
+				fillerHeat = 3
+				defer func() { fillerHeat = 1 }()
+				return exploreHistory(1000, pf, sq, 0, objs)
+			})
+		}
+	}
+
 	// (3) the real limit, black box: prefill past 1000 distinct pairs, then every pair of lookups
 	real := []int{0, 900, 998, 1000, 1002, 1100}
 	if !t.Thorough() {
@@ -436,6 +472,10 @@ func run(t *vlib.T) {
 }
 
 var progressFn = func() {}
+
+// fillerHeat: how many times each pre-fill pair is looked up (entries that were used repeatedly
+// may be treated differently by the eviction policy)
+var fillerHeat = 1
 
 func exploreHistory(limit, prefill int, seq []lookup, dev int, objs []obj) *vlib.Outcome {
 	o := &vlib.Outcome{Counters: map[string]int64{}}
